@@ -168,6 +168,46 @@ def check_diffusion_run(case):
     return out
 
 
+def check_shared_list(case):
+    """The element list handed to the constructor stays the caller's: reordering it in place afterwards (to build the object for the
+    permuted listing, the obvious way to do it) must not change the element order of the object built first."""
+    from kawin.tests import datasets as D
+    from kawin.thermo import GeneralThermodynamics
+    out = Out()
+    db, base = {"nicral": (D.NICRAL_TDB, ["NI", "CR", "AL"]), "fecrni": (D.FECRNI_DB, ["FE", "CR", "NI"])}[case["system"]]
+    els = list(base) + (["VA"] if case["with_va"] else [])
+    x = np.array(case["x"], dtype=float)
+    T = case["T"]
+    so = sys.stdout
+    sys.stdout = io.StringIO()
+    try:
+        A = GeneralThermodynamics(db, els, ["FCC_A1"])
+        D1 = np.array(A.getInterdiffusivity(x.copy(), T), dtype=float)
+        T1 = np.array(A.getTracerDiffusivity(x.copy(), T), dtype=float)
+        els[1], els[2] = els[2], els[1]                      # the caller's list, reordered in place
+        B = GeneralThermodynamics(db, els, ["FCC_A1"])
+        D2 = np.array(A.getInterdiffusivity(x.copy(), T), dtype=float)
+        T2 = np.array(A.getTracerDiffusivity(x.copy(), T), dtype=float)
+        DB = np.array(B.getInterdiffusivity(x[::-1].copy(), T), dtype=float)
+        TB = np.array(B.getTracerDiffusivity(x[::-1].copy(), T), dtype=float)
+    finally:
+        sys.stdout = so
+    if not (_close(D1, D2, 1e-9, 0) and _close(T1, T2, 1e-9, 0)):
+        out.fail("object_follows_callers_list", "%s (list %s 'VA'): the first object answers %r / %r before and %r / %r after the caller reordered the list it was built from" % (case["system"], "with" if case["with_va"] else "without", D1.tolist(), T1.tolist(), D2.tolist(), T2.tolist()))
+    if not _close(D1[::-1, ::-1], DB, 1e-6, 1e-9 * np.max(np.abs(D1))) or not _close(T1[[0, 2, 1]], TB, 1e-6):
+        out.fail("interdiffusivity_not_permuted", "%s: object built from the reordered list: D %r, tracer %r; permuted answers of the first object: %r, %r" % (case["system"], DB.tolist(), TB.tolist(), D1[::-1, ::-1].tolist(), T1[[0, 2, 1]].tolist()))
+    out.label(case["system"], "list_with_VA" if case["with_va"] else "list_without_VA")
+    out.nt(case["with_va"])
+    return out
+
+
+@st.composite
+def _shared(draw):
+    name = draw(st.sampled_from(["nicral", "fecrni"]))
+    rng, Tr = {"nicral": ([(0.02, 0.3), (0.01, 0.12)], (1200, 1500)), "fecrni": ([(0.05, 0.3), (0.05, 0.3)], (1200, 1500))}[name]
+    return {"system": name, "with_va": draw(st.sampled_from([True, True, False])), "x": [draw(st.floats(*rng[0])), draw(st.floats(*rng[1]))], "T": draw(st.floats(*Tr))}
+
+
 @st.composite
 def _q(draw):
     name = draw(st.sampled_from(["nicral", "nicral", "almgsi"]))
@@ -193,6 +233,9 @@ def clauses():
     return [
         Clause("element_order_queries", _q, check_queries, quick=120, thorough=6000, shrink=False,
                rule="generator: Ni-Cr-Al (gamma prime, solutes listed as [CR,AL] and [AL,CR]) and Al-Mg-Si (five stoichiometric phases, [MG,SI] and [SI,MG]) compositions/temperatures; driving force and nucleus composition (by the tangent, approximate, sampling or curvature method, selected through setDrivingForceMethod), interdiffusivity, tracer diffusivity and curvature factors evaluated on one thermodynamics object per order with caches discarded; outputs must be equal after applying the permutation"),
+        Clause("element_list_owned_by_caller", _shared, check_shared_list, quick=6, thorough=80, shrink=False,
+               rule="generator: Ni-Cr-Al / Fe-Cr-Ni fcc point, element list with or without 'VA'; one list object is used to build the first thermodynamics object, reordered in place, and used again for the permuted one; "
+                    "oracle: the first object's interdiffusivity and tracer diffusivities are unchanged by the reordering, the second object's are the permuted ones; non-trivial: list containing 'VA'"),
         Clause("element_order_mobility", _m, check_mobility, quick=120, thorough=6000, shrink=False,
                rule="generator: Ni-Cr-Al and Fe-Cr-Ni (fcc+bcc) points with both solute orders: per-phase mobilities, phase fractions, chemical potentials and the five homogenization rules must be permuted accordingly"),
         Clause("element_order_diffusion_run", _d, check_diffusion_run, quick=12, thorough=300, shrink=False,
